@@ -85,20 +85,70 @@ pub fn ops_for(size: usize) -> Vec<Op> {
     out
 }
 
+/// Which alphabet hashes share a slot?  The statement does not fix the slot function, so it is
+/// observed: h1 and h2 share a slot iff, on a fresh table, add(h1, 1); add(h2, 2) makes get(h1)
+/// None.  The relation must be an equivalence with at most `size` classes (more classes than slots
+/// would mean a write outside the table).  Returns the class index of every alphabet hash.
+pub fn infer_slots<T: Val>(size: usize, alphabet: &[u64]) -> Result<Vec<usize>, String> {
+    let n = alphabet.len();
+    let mut same = vec![vec![false; n]; n];
+    for i in 0..n {
+        for j in 0..n {
+            if i == j {
+                same[i][j] = true;
+                continue;
+            }
+            let mut t: CacheTable<T> = CacheTable::new(size, T::make(0));
+            t.add(alphabet[i], T::make(1));
+            t.add(alphabet[j], T::make(2));
+            match t.get(alphabet[i]).map(|v| v.code()) {
+                None => same[i][j] = true,
+                Some(1) => same[i][j] = false,
+                other => return Err(format!("after add({:#x}, 1); add({:#x}, 2): get({:#x}) = {:?} — neither the value written under that hash nor nothing", alphabet[i], alphabet[j], alphabet[i], other)),
+            }
+        }
+    }
+    let mut class = vec![usize::MAX; n];
+    let mut k = 0;
+    for i in 0..n {
+        if class[i] == usize::MAX {
+            for j in 0..n {
+                if same[i][j] {
+                    class[j] = k;
+                }
+            }
+            k += 1;
+        }
+    }
+    for i in 0..n {
+        for j in 0..n {
+            if same[i][j] != (class[i] == class[j]) || same[i][j] != same[j][i] {
+                return Err(format!("slot sharing is not an equivalence relation around hashes {:#x} and {:#x}", alphabet[i], alphabet[j]));
+            }
+        }
+    }
+    if k > size {
+        return Err(format!("{k} hashes of the alphabet live in pairwise different slots of a table of size {size}: some write went outside the table"));
+    }
+    Ok(class)
+}
+
 /// Replay `seq` on a fresh real table and on the model; compare every lookup after the LAST
 /// operation (earlier prefixes are their own cases) and every value handed to a predicate.
-fn run_case<T: Val>(size: usize, seq: &[Op], alphabet: &[u64]) -> Result<(Vec<(u64, u8)>, u64, u64), String> {
+/// `slots[i]` is the observed slot class of `alphabet[i]`.
+fn run_case<T: Val>(size: usize, seq: &[Op], alphabet: &[u64], slots: &[usize]) -> Result<(Vec<(u64, u8)>, u64, u64), String> {
+    let slot_of = |h: u64| -> usize { slots[alphabet.iter().position(|a| *a == h).expect("machinery: hash outside the alphabet")] };
     let mut table: CacheTable<T> = CacheTable::new(size, T::make(0));
-    let mut model: Vec<(u64, u8)> = vec![(0, 0); size];
+    let mut model: Vec<(u64, u8)> = vec![(0, 0); alphabet.len()];
     let mut preds = 0u64;
     for op in seq {
         match *op {
             Op::Add(h, v) => {
                 table.add(h, T::make(v));
-                model[(h % size as u64) as usize] = (h, v);
+                model[slot_of(h)] = (h, v);
             }
             Op::ReplaceIf(h, v, p) => {
-                let slot = (h % size as u64) as usize;
+                let slot = slot_of(h);
                 let old = model[slot].1;
                 let seen: RefCell<Vec<u8>> = RefCell::new(vec![]);
                 let newv = T::make(v);
@@ -131,7 +181,7 @@ fn run_case<T: Val>(size: usize, seq: &[Op], alphabet: &[u64]) -> Result<(Vec<(u
     }
     let mut looks = 0;
     for &h in alphabet {
-        let slot = (h % size as u64) as usize;
+        let slot = slot_of(h);
         let want = if model[slot].0 == h { Some(model[slot].1) } else { None };
         let got = table.get(h).map(|t: T| {
             if t != T::make(t.code()) {
@@ -155,6 +205,15 @@ fn crumb(b: &[u8]) -> String {
 fn explore<T: Val>(run: &Run, tyname: &'static str, size: usize, depth: usize, states: &Mutex<BTreeSet<Vec<(u64, u8)>>>) {
     let ops = ops_for(size);
     let alphabet = hash_alphabet(size);
+    let a2 = alphabet.clone();
+    let slots = match guard::lib(move || infer_slots::<T>(size, &a2)) {
+        Ok(Ok(s)) => s,
+        Ok(Err(e)) | Err(e) => {
+            run.report(Violation::new("C19", "slot-sharing", "", format!("T={tyname} size={size}: {e}"), json!({"kind": "cache-slots", "type": tyname, "size": size})));
+            return;
+        }
+    };
+    let slots = &slots;
     let seqs = AtomicU64::new(0);
     let opsn = AtomicU64::new(0);
     let looks = AtomicU64::new(0);
@@ -163,14 +222,14 @@ fn explore<T: Val>(run: &Run, tyname: &'static str, size: usize, depth: usize, s
     ops.par_iter().for_each(|first| {
         let mut local_states: BTreeSet<Vec<(u64, u8)>> = BTreeSet::new();
         let mut seq = vec![*first];
-        fn rec<T: Val>(run: &Run, tyname: &str, size: usize, ops: &[Op], alphabet: &[u64], seq: &mut Vec<Op>, depth: usize, acc: &mut (u64, u64, u64, u64), st: &mut BTreeSet<Vec<(u64, u8)>>) {
+        fn rec<T: Val>(run: &Run, tyname: &str, size: usize, ops: &[Op], alphabet: &[u64], slots: &[usize], seq: &mut Vec<Op>, depth: usize, acc: &mut (u64, u64, u64, u64), st: &mut BTreeSet<Vec<(u64, u8)>>) {
             if run.has_violation() {
                 return;
             }
             let desc = format!("T={tyname} size={size} ops={:?}", seq.iter().map(|o| o.name()).collect::<Vec<_>>());
             guard::crumb_raw(crumb, &desc.as_bytes()[..desc.len().min(96)]);
             let s2 = seq.clone();
-            match guard::lib(move || run_case::<T>(size, &s2, alphabet)) {
+            match guard::lib(move || run_case::<T>(size, &s2, alphabet, slots)) {
                 Ok(Ok((model, l, p))) => {
                     acc.0 += 1;
                     acc.1 += seq.len() as u64;
@@ -192,13 +251,13 @@ fn explore<T: Val>(run: &Run, tyname: &'static str, size: usize, depth: usize, s
             if seq.len() < depth {
                 for op in ops {
                     seq.push(*op);
-                    rec::<T>(run, tyname, size, ops, alphabet, seq, depth, acc, st);
+                    rec::<T>(run, tyname, size, ops, alphabet, slots, seq, depth, acc, st);
                     seq.pop();
                 }
             }
         }
         let mut acc = (0, 0, 0, 0);
-        rec::<T>(run, tyname, size, &ops, &alphabet, &mut seq, depth, &mut acc, &mut local_states);
+        rec::<T>(run, tyname, size, &ops, &alphabet, slots, &mut seq, depth, &mut acc, &mut local_states);
         seqs.fetch_add(acc.0, Ordering::Relaxed);
         opsn.fetch_add(acc.1, Ordering::Relaxed);
         looks.fetch_add(acc.2, Ordering::Relaxed);
@@ -278,7 +337,7 @@ fn constructions(run: &Run) {
     }
 }
 
-pub const RULE: &str = "E2 over operation sequences: for each table size in {1, 2, 4, 8} (thorough: also 16) and each value type (u8 and a 16-byte struct), EVERY sequence of up to D operations (D = 4 quick, 5 thorough) over the alphabet {add, replace_if with always / never / old==default / old<new} x 6 hashes (0, 1, size-1, size, size+1, 2^32+1, 2^63, u64::MAX, 2*size+1 reduced to 6: slot-colliding and non-colliding, high-bit) x values {1, 2}; every sequence is replayed on a fresh real table and on a slot-array model; after it get(h) for every alphabet hash and the value handed to every predicate must agree. Construction: every size in 0..=1025 and 2^k, 2^k +- 1 for k <= 20 panics iff it is not a power of two, and a fresh table answers as (hash 0, default). Out-of-table access aborts loudly in this debug-assertion build. states = sequences (histories), transitions = operations replayed. distinct_nontrivial = distinct model states reached";
+pub const RULE: &str = "E2 over operation sequences: for each table size in {1, 2, 4, 8} (thorough: also 16) and each value type (u8 and a 16-byte struct), EVERY sequence of up to D operations (D = 4 quick, 5 thorough) over the alphabet {add, replace_if with always / never / old==default / old<new} x 6 hashes (0, 1, size-1, size, size+1, 2^32+1, 2^63, u64::MAX, 2*size+1 reduced to 6: slot-colliding and non-colliding, high-bit) x values {1, 2}; every sequence is replayed on a fresh real table and on a slot-array model (which hashes share a slot is observed on fresh tables, not assumed: the relation must be an equivalence with at most `size` classes); after it get(h) for every alphabet hash and the value handed to every predicate must agree. Construction: every size in 0..=1025 and 2^k, 2^k +- 1 for k <= 20 panics iff it is not a power of two, and a fresh table answers as (hash 0, default). Out-of-table access aborts loudly in this debug-assertion build. states = sequences (histories), transitions = operations replayed. distinct_nontrivial = distinct model states reached";
 
 pub fn run(tier: Tier) -> i32 {
     let run = Arc::new(Run::new("C19", tier, COUNTERS));
@@ -307,7 +366,11 @@ pub fn replay(case: &Value) -> i32 {
             let size = case["size"].as_u64().unwrap_or(1) as usize;
             let ops: Vec<Op> = case["ops"].as_array().cloned().unwrap_or_default().iter().filter_map(op_parse).collect();
             let alphabet = hash_alphabet(size);
-            let r = if case["type"] == json!("u8") { guard::lib(|| run_case::<u8>(size, &ops, &alphabet)) } else { guard::lib(|| run_case::<Wide>(size, &ops, &alphabet)) };
+            let r = if case["type"] == json!("u8") {
+                guard::lib(|| infer_slots::<u8>(size, &alphabet).and_then(|sl| run_case::<u8>(size, &ops, &alphabet, &sl)))
+            } else {
+                guard::lib(|| infer_slots::<Wide>(size, &alphabet).and_then(|sl| run_case::<Wide>(size, &ops, &alphabet, &sl)))
+            };
             match r {
                 Ok(Ok(_)) => {}
                 Ok(Err(e)) => {
@@ -316,6 +379,13 @@ pub fn replay(case: &Value) -> i32 {
                 Err(e) => {
                     run.report(Violation::new("C19", "panic", "", e, case.clone()));
                 }
+            }
+        }
+        Some("cache-slots") => {
+            let size = case["size"].as_u64().unwrap_or(1) as usize;
+            let alphabet = hash_alphabet(size);
+            if let Ok(Err(e)) | Err(e) = guard::lib(|| infer_slots::<u8>(size, &alphabet).map(|_| ())).map(|r| r.map_err(|e| e)) {
+                run.report(Violation::new("C19", "slot-sharing", "", e, case.clone()));
             }
         }
         _ => constructions(&run),
